@@ -185,7 +185,7 @@ def check_resolution(ctx, w):
     want = ('parse', 'stream', 'Elf_Versym', expr.spec_nf('sh_offset + n * sh_entsize'))
     ctx.ob('W-VER', f.construct, 'entry n at sh_offset + n*sh_entsize', ops == [want], got=ops, expected=want)
     got = [expr.nfs(r.value, env) for r in expr.returns_of(f.node)]
-    want_r = 'Symbol(struct_parse(Elf_Versym,stream,stream_pos=%s),name(get_symbol(symboltable,n)))' % expr.spec_nf('sh_offset + n*sh_entsize')
+    want_r = 'Symbol(struct_parse(Elf_Versym,stream,%s),name(get_symbol(symboltable,n)))' % expr.spec_nf('sh_offset + n*sh_entsize')
     ctx.ob('W-VER', f.construct, 'paired with the name of dynamic symbol n', got == [want_r], got=got, expected=want_r)
     f = w.model.func(GV, 'GNUVerSymSection.num_symbols')
     got = [expr.nfs(r.value, expr.FEnv(f.node)) for r in expr.returns_of(f.node)]
